@@ -8,6 +8,7 @@ import AspireModel.Model.Eval
 import AspireModel.Model.CkptFile
 import AspireModel.Model.Ctx
 import AspireModel.Model.Wiring
+import AspireModel.Model.Entropy
 import AspireModel.Model.Transforms
 import AspireModel.Model.Session
 import AspireModel.Model.Dtype
@@ -398,6 +399,30 @@ def opWiring : P String := do
     (if accepted t r then "1" else "0") ++ " " ++ (match usedSrc t r with | .user => "user" | .ambient => "ambient")
   pure (" ".intercalate [outB (WiringOK t), f .ctor, f .call, f .top])
 
+/-- `entropy i s o c <route> <seeded> gu ga1 ga2`: a data-dependent run (SMC-like: proposal draw, then resample/kernel draws until an
+    even value, final draw) under the site-to-source map of the table and route, twice with the same user generator and two
+    ambient ones: `same|diff`, then the source of each site -/
+def entropyProg (off : Nat) : Nat → RProg Nat Nat
+  | 0 => .draw .final fun v => .ret (v + off)
+  | n + 1 => .draw .resample fun v => .draw .kernel fun w =>
+      if (v + w) % 2 = 0 then .draw .final fun z => .ret (v + w + z + off) else entropyProg off n
+
+def opEntropy : P String := do
+  let a ← bool; let b ← bool; let c ← bool; let d ← bool
+  let t : SamplerTbl := { initHasRng := a, sampleHasRng := b, sampleOverwrites := c, consumesRng := d }
+  let r ← (do match (← tok) with
+    | "ctor" => pure Route.ctor | "call" => pure Route.call | "top" => pure Route.top | x => throw s!"bad route {x}")
+  let seeded ← bool
+  let gu ← nat; let ga1 ← nat; let ga2 ← nat
+  let src := siteSrc t r seeded
+  let prog : RProg Nat Nat := .draw .flowSample fun q => .draw .flowSample fun q2 => entropyProg (q + 2 * q2) 4
+  let ctr : Nat → Nat × Nat := fun g => (g, g + 1)
+  let r1 := prog.exec ctr src gu ga1
+  let r2 := prog.exec ctr src gu ga2
+  let same := r1.1 == r2.1 && r1.2.1 == r2.2.1
+  let show1 (s : Site) : String := match src s with | .user => "user" | .ambient => "ambient"
+  pure (" ".intercalate [if same then "same" else "diff", show1 .flowSample, show1 .resample, show1 .kernel, show1 .final])
+
 
 /-! ### parameter transforms (C04, C03): `tfm fwd|inv|fit <cfg> nrows rows…` -/
 def parseKind : P (CoordKind α) := do
@@ -604,6 +629,7 @@ def dispatch (op : String) : P String :=
   | "dump" => opDump
   | "ctx" => opCtx
   | "wiring" => opWiring
+  | "entropy" => opEntropy
   | "tfm" => opTfm (α := α)
   | "session" => opSession
   | "conv" => opConv
